@@ -109,6 +109,28 @@ func ruleERR1(c *Ctx) []Ob {
 					o.add(INFO, key, pos, "rollback on a path that already reports a failure (or re-raises a panic): its own error cannot be reported as well")
 					return
 				}
+				// a cleanup call inside a result-less wrapper that is itself only ever deferred
+				{
+					m := ""
+					if x.Call.IsInvoke() {
+						m = x.Call.Method.Name()
+					} else if f := staticCallee(x); f != nil {
+						m = f.Name()
+					}
+					if cleanupMethods[m] && fn.Signature.Results().Len() == 0 {
+						sites := c.staticCallers(fn)
+						allDeferred := len(sites) > 0
+						for _, s := range sites {
+							if _, isDefer := s.(*ssa.Defer); !isDefer {
+								allDeferred = false
+							}
+						}
+						if allDeferred {
+							o.add(OK, key+" (deferred)", pos, "cleanup inside %s, which is only ever deferred: after the outcome is decided", fnName)
+							return
+						}
+					}
+				}
 				full := calleeFullName(ci)
 				if strings.HasPrefix(full, "(*bytes.Buffer).") || strings.HasPrefix(full, "(*strings.Builder).") {
 					o.add(INFO, key, pos, "in-memory writer: documented to always return a nil error")
